@@ -26,7 +26,9 @@ EXPLANATION = (
     "(IrrDay, IrrTot) pair is (IrrNet, irr_net_cum) for method 4 and (Irr, irr_cum) otherwise; only irrigation's "
     "return, transpiration, the step, the reset and the constructor write the counters. C06.d (typestate): the only "
     "store to final_stats is control dependent on harvest_flag is False, sets harvest_flag in the same block, is keyed "
-    "by the season counter, and harvest_flag is cleared only by the season reset. T-COLS: writer lists, column-name "
+    "by the season counter, and harvest_flag is cleared only by the season reset. C06.e: the yield-formation switch phi that scales the water productivity, WP*(1-(1-WPy/100)*phi), is at most 1 "
+    "by construction at each of its definitions (constant <= 1, a ratio x/y under the guard x < y, min(x, y)/y, or a percentage of the "
+    "state / 100 whose every writer keeps it <= 100) - so the gain is scaled down by no more than the crop's productivity factor. T-COLS: writer lists, column-name "
     "lists and array widths agree; state columns carry the field of the same name, flux columns the designated "
     "return of the designated process. NOT decided: numeric equality of sums (follows from the identities by exact "
     "arithmetic only).")
@@ -493,9 +495,137 @@ def tcols(chk, prog, rule="T-COLS"):
     else:
         chk.violation(rule, STEP_FN, construct, "summary writer and column names disagree", loc=step.loc())
 
+# --------------------------------------------------------------------------------------------- C06.e
+
+_PCT_FORMALS: Dict[str, Set[str]] = {}     # function key -> formals fed from the state's pct_lag_phase at its call in the step
+
+
+def _ub1(fi, flow, nid, e, depth=0) -> Tuple[bool, str]:
+    """is expression e, evaluated at cfg node nid, at most 1 by construction?"""
+    cfg = flow.cfg
+    if isinstance(e, ast.Constant) and isinstance(e.value, (int, float)) and not isinstance(e.value, bool):
+        return (e.value <= 1, f"constant {e.value}")
+    if isinstance(e, ast.Call) and isinstance(e.func, ast.Name) and e.func.id == "min" and e.args:
+        for a in e.args:
+            ok, why = _ub1(fi, flow, nid, a, depth + 1)
+            if ok:
+                return True, f"min(..., {why})"
+        return False, f"no argument of {norm(e)} is bounded by 1"
+    if isinstance(e, ast.BinOp) and isinstance(e.op, ast.Div):
+        num, den = e.left, e.right
+        # X / Y under the guard X < Y (or X <= Y), or min(X, Y) / Y
+        for t, l in cfg.transitive_control_deps(nid):
+            c = cfg.nodes[t].ast
+            if cfg.nodes[t].kind == "test" and isinstance(c, ast.Compare) and len(c.ops) == 1:
+                a, b, op = norm(c.left), norm(c.comparators[0]), c.ops[0]
+                if (l is True and isinstance(op, (ast.Lt, ast.LtE)) and a == norm(num) and b == norm(den)) or \
+                   (l is False and isinstance(op, (ast.Gt, ast.GtE)) and a == norm(num) and b == norm(den)) or \
+                   (l is True and isinstance(op, (ast.Gt, ast.GtE)) and b == norm(num) and a == norm(den)) or \
+                   (l is False and isinstance(op, (ast.Lt, ast.LtE)) and b == norm(num) and a == norm(den)):
+                    return True, f"ratio {norm(e)} under the guard {norm(num)} < {norm(den)}"
+        if isinstance(num, ast.Call) and isinstance(num.func, ast.Name) and num.func.id == "min" and any(norm(a) == norm(den) for a in num.args):
+            return True, f"min(x, d) / d with d = {norm(den)}"
+        if isinstance(den, ast.Constant) and den.value == 100 and isinstance(num, ast.Name) and num.id in _PCT_FORMALS.get(fi.key, ()):
+            return True, f"percentage {norm(num)} / 100 (every writer of the state's percentage keeps it <= 100, checked below)"
+        return False, f"the ratio {norm(e)} is not guarded by {norm(num)} < {norm(den)}"
+    if isinstance(e, ast.Name) and depth < 3:
+        ds = flow.defs_reaching(e.id, nid)
+        whys = []
+        for d in ds:
+            if d == ENTRY:
+                return False, f"{e.id} is a parameter"
+            a = cfg.nodes[d].ast
+            if not isinstance(a, ast.Assign):
+                return False, f"unrecognised definition of {e.id}"
+            ok, why = _ub1(fi, flow, d, a.value, depth + 1)
+            if not ok:
+                return False, why
+            whys.append(why)
+        return True, "; ".join(sorted(set(whys)))
+    return False, f"`{norm(e)}` is not bounded by 1 by construction"
+
+
+def rule_e(chk, prog):
+    """WPadj = WP * (1 - (1 - WPy/100) * phi): phi <= 1 keeps the scaling at or above WPy/100"""
+    ba = prog.find_func("biomass_accumulation")
+    where = f"{ba.module}:{ba.qualname}"
+    flow = flow_of(ba)
+    n = 0
+    step0 = prog.func(STEP_FN)
+    for c, t in prog.calls_in(step0):
+        if getattr(t, "key", None) == ba.key:
+            _PCT_FORMALS[ba.key] = {ba.params[i] for i, a in enumerate(c.args) if isinstance(a, ast.Attribute) and a.attr == "pct_lag_phase"}
+    for a in walk_no_nested(ba.node):
+        if not isinstance(a, ast.Assign):
+            continue
+        for m in ast.walk(a.value):
+            # (1 - <..WPy..>/100) * phi   or   phi * (1 - ...)
+            if isinstance(m, ast.BinOp) and isinstance(m.op, ast.Mult):
+                for x, y in ((m.left, m.right), (m.right, m.left)):
+                    if isinstance(x, ast.BinOp) and isinstance(x.op, ast.Sub) and isinstance(x.left, ast.Constant) and x.left.value == 1 \
+                            and any(isinstance(z, ast.Attribute) and z.attr == "WPy" for z in ast.walk(x.right)) and isinstance(y, ast.Name):
+                        n += 1
+                        nid = flow.stmt_node[id(a)]
+                        phi = y.id
+                        for d in flow.defs_reaching(phi, nid):
+                            construct = f"{norm(flow.cfg.nodes[d].ast)[:80] if d != ENTRY else phi + ' (parameter)'} <= 1"
+                            if d == ENTRY:
+                                chk.violation("C06.e", where, construct, "the yield-formation switch is a parameter", loc=ba.loc(a))
+                                continue
+                            ok, why = _ub1(ba, flow, d, flow.cfg.nodes[d].ast.value)
+                            if ok:
+                                chk.ok("C06.e", where, construct, why)
+                            else:
+                                chk.violation("C06.e", where, construct,
+                                              f"the yield-formation switch {phi} can exceed 1 ({why}): the water productivity then drops below "
+                                              "WP*WPy/100 and the daily biomass gain below the floor the crop's productivity factor allows",
+                                              loc=ba.loc(flow.cfg.nodes[d].ast))
+    chk.floor("C06.e", n, 1, "sites scaling the water productivity by the yield-formation switch")
+    # A-18 discharged: every writer of the state's pct_lag_phase leaves it <= 100
+    step = prog.func(STEP_FN)
+    nw = 0
+    for key, fi in sorted(prog.funcs.items()):
+        for sto in stores(prog, fi, None):
+            if sto.kind == "attr" and sto.field == "pct_lag_phase":
+                nw += 1
+                a = sto.node
+                construct = f"{sto.text[:80]} <= 100"
+                w = f"{fi.module}:{fi.qualname}"
+                val = a.value if isinstance(a, ast.Assign) else None
+                if isinstance(val, ast.Constant) and isinstance(val.value, (int, float)) and val.value <= 100:
+                    chk.ok("C06.e", w, construct, f"constant {val.value}")
+                    continue
+                if isinstance(val, ast.Call) and isinstance(a.targets[0], ast.Tuple):
+                    callee = prog.resolve_call(fi, val)
+                    pos = next((i for i, t in enumerate(a.targets[0].elts) if isinstance(t, ast.Attribute) and t.attr == "pct_lag_phase"), None)
+                    rets = [r for r in walk_no_nested(callee.node) if isinstance(r, ast.Return)] if callee is not None and hasattr(callee, "node") else []
+                    if pos is not None and len(rets) == 1 and isinstance(rets[0].value, ast.Tuple) and isinstance(rets[0].value.elts[pos], ast.Name):
+                        cf = flow_of(callee)
+                        nm = rets[0].value.elts[pos].id
+                        bad = []
+                        for d in cf.defs_reaching(nm, cf.stmt_node[id(rets[0])]):
+                            if d == ENTRY:
+                                continue        # the incoming value: inductively <= 100
+                            v = cf.cfg.nodes[d].ast.value
+                            if isinstance(v, ast.Constant) and isinstance(v.value, (int, float)) and v.value <= 100:
+                                continue
+                            if isinstance(v, ast.BinOp) and isinstance(v.op, ast.Mult) and isinstance(v.left, ast.Constant) and v.left.value == 100 \
+                                    and _ub1(callee, cf, d, v.right)[0]:
+                                continue
+                            bad.append(norm(cf.cfg.nodes[d].ast)[:80])
+                        if not bad:
+                            chk.ok("C06.e", w, construct, f"{callee.qualname} returns constants <= 100, 100 * (x / y) under x < y, or the incoming value")
+                            chk.fn(callee.key)
+                        else:
+                            chk.violation("C06.e", w, construct, f"{callee.qualname} can return a lag-phase percentage above 100: {bad}", loc=fi.loc(a))
+                        continue
+                chk.violation("C06.e", w, construct, "unrecognised writer of the lag-phase percentage", loc=fi.loc(a))
+    chk.floor("C06.e-writers", nw, 3, "writers of pct_lag_phase")
+
 
 def run(chk, prog, tier):
     rule_a(chk, prog)
+    rule_e(chk, prog)
     s, fs = rule_b(chk, prog)
     rule_c(chk, prog, s, fs)
     rule_d(chk, prog, fs)
